@@ -337,7 +337,8 @@ def b_bfu(c, P):
 
 def q_bfu(c):
     if c['nv'][0] == 'I':
-        return 't_bfui %s %s %s %s %d' % (nats(c['ws']), s_coq(c['w']), oz(c['s']), oz(c['e']), c['nv'][1])
+        return 't_bfui %s %s %s %s %d %s' % (nats(c['ws']), s_coq(c['w']), oz(c['s']), oz(c['e']), c['nv'][1],
+                                             bl(c['tr']))
     return 't_bfu %s %s %s %s %s %s' % (nats(c['ws']), s_coq(c['w']), oz(c['s']), oz(c['e']), s_coq(c['nv']),
                                         bl(c['tr']))
 
@@ -933,7 +934,7 @@ def gen_bfu(rng, tier):
 
 def gen_bfus(rng, tier):
     out = []
-    reps = 40 if tier == 'quick' else 500
+    reps = 40 if tier == 'quick' else 200
     for n in (3, 4, 5, 6):
         if tier == 'quick' and n == 6:
             continue
@@ -973,7 +974,7 @@ def gen_mbp(rng, tier):
     full_len = 3 if tier == 'quick' else 4
     for L in range(1, full_len + 1):
         pats += [''.join(p) for p in itertools.product(ALPHA, repeat=L)]
-    for _ in range(500 if tier == 'quick' else 7000):
+    for _ in range(500 if tier == 'quick' else 2500):
         L = rng.randint(full_len + 1, 8)
         pats.append(''.join(rng.choice(ALPHA) for _ in range(L)))
     for p in pats:
@@ -1052,7 +1053,7 @@ def sch_depth(s):
 
 def gen_struct(rng, tier):
     out = []
-    reps = 170 if tier == 'quick' else 2500
+    reps = 170 if tier == 'quick' else 1200
     budget = 8 if tier == 'quick' else 10
     seen = set()
     for rep in range(reps):
@@ -1160,7 +1161,7 @@ def run_configs(ctx, cfgs):
         model = {}
         t_q = time.time()
         try:
-            mres = ctx.coq_eval(exprs, IMPORTS, tag='c14', shard=max(20, len(exprs) // 40 + 1), jobs=14)
+            mres = ctx.coq_eval(exprs, IMPORTS, tag='c14', shard=50, jobs=14)
             model = dict(zip(qidx, mres))
         except Exception as e:
             ctx.model_mismatch('Front/C14Harness.v could not be evaluated: %s' % str(e)[-800:], {})
